@@ -42,7 +42,9 @@ package sessions
 //@ func (*Session).AddTopic(t []byte)
 //@   requires s != nil && topics_nodup(s)
 //@   ensures topics_nodup(s)
-//@   ensures forall x string :: topic_in(s, x) <==> (old(topic_in(s, x)) || x == string(t))
+//@   ensures forall x string :: topic_in(s, x) ==> (old(topic_in(s, x)) || x == string(t))
+//@   ensures forall x string :: old(topic_in(s, x)) ==> topic_in(s, x)
+//@   ensures topic_in(s, string(t))
 //@   ensures base(s.topics) == old(base(s.topics)) || fresh(s.topics)
 //@   modifies s.topics, elems(s.topics)
 //@ loop (*Session).AddTopic#1
